@@ -744,6 +744,88 @@ theorem C07_gen_eval_loops (e : Env) (a : List Nat) :
       rw [fold_state _ _ hstep]
       simp [Func.value, minL, D.fin]
 
+/-! ### index loop (SOS1) and range-for with per-element pairs (NumberofConst) -/
+theorem count_true_fold {R : Type} (f : Sum R Int → Bool → Sum R Int)
+    (hf : ∀ n b, f (Sum.inr n) b = Sum.inr (if b then n + 1 else n)) (l : List Bool) (n : Int) :
+    l.foldl f (Sum.inr n) = Sum.inr (n + ((l.filter id).length : Nat)) := by
+  induction l generalizing n with
+  | nil => simp
+  | cons b t ih =>
+    simp only [List.foldl, hf, ih]
+    cases b <;> simp [List.filter] <;> omega
+
+theorem sos_excess_cast (k : Nat) : D.ofInt (max (0 : Int) ((k : Int) - 1)) = ER.fin (((k - 1 : Nat) : Nat) : Rat) := by
+  unfold D.ofInt
+  cases k with
+  | zero =>
+    have : max (0 : Int) (((0 : Nat) : Int) - 1) = 0 := by omega
+    rw [this]; rfl
+  | succ m =>
+    have : max (0 : Int) (((m + 1 : Nat) : Int) - 1) = (m : Int) := by omega
+    rw [this]
+    show ER.fin (((m : Int) : Rat)) = ER.fin (((m + 1 - 1 : Nat) : Nat) : Rat)
+    have h2 : m + 1 - 1 = m := by omega
+    rw [h2]; rfl
+
+/-- **C07_gen_sos1**: `SOS_1or2_Constraint::ComputeViolationSOS1` — the index loop over the members, generated as a fold over the
+reversed list of the members' `is_nonzero` flags (`C07_gen_varinfo`), is the model's `sos1Viol` -/
+theorem C07_gen_sos1 (vs : List Nat) (e : Env) :
+    Gen.SolCheck.sos1ComputeViolation (vs.map e.isNonzero) = violD (sos1Viol vs e) := by
+  unfold Gen.SolCheck.sos1ComputeViolation
+  simp only []
+  rw [count_true_fold _ (by intro n b; cases b <;> rfl)]
+  simp only [sos1Viol, violD]
+  have hlen : ((List.filter id (vs.map e.isNonzero).reverse).length) = (vs.filter e.isNonzero).length := by
+    rw [List.filter_reverse, List.length_reverse, List.filter_map, List.length_map]; rfl
+  rw [hlen]
+  simp only [Int.zero_add]
+  rw [sos_excess_cast]
+  simp [D.ofInt, D.fin]
+
+theorem fold_count_map {α β : Type} (f : Sum D D → β → Sum D D) (g : α → β) (p : α → Bool)
+    (hf : ∀ r v, f (Sum.inr (D.fin r)) (g v) = Sum.inr (D.fin (if p v then r + 1 else r))) (l : List α) (a : Rat) :
+    (l.map g).foldl f (Sum.inr (D.fin a)) = Sum.inr (D.fin (a + ((l.filter p).length : Nat))) := by
+  induction l generalizing a with
+  | nil =>
+    have : ((0 : Nat) : Rat) = 0 := by push_cast; rfl
+    simp only [List.map, List.foldl, List.filter, List.length_nil, this]
+    have : a + 0 = a := by grind
+    rw [this]
+  | cons b t ih =>
+    simp only [List.map, List.foldl, List.filter, hf, ih]
+    cases hp : p b
+    · simp
+    · simp only [if_true, List.length_cons]
+      congr 2
+      push_cast; grind
+
+theorem D_sub_fin (a b : Rat) : D.sub (ER.fin a) (ER.fin b) = ER.fin (a - b) := by
+  simp [D.sub, D.neg, D.add]; grind
+
+theorem D_le_fin (a b : Rat) : D.le (ER.fin a) (ER.fin b) = decide (a ≤ b) := by
+  simp only [D.le, ER.lt]
+  by_cases h : a ≤ b
+  · have : ¬ b < a := by grind
+    simp [h, this]
+  · have : b < a := by grind
+    simp [h, this]
+
+/-- **C07_gen_numberof**: `ComputeValue(NumberofConstConstraint)` — the range-for over the arguments with the per-argument
+operands `x[v]`, `is_var_int(v)` and the tolerance `feastol()`, generated as a fold, is the model's `Func.value` -/
+theorem C07_gen_numberof (e : Env) (k : Rat) (a : List Nat) :
+    Gen.SolCheck.evalNumberofConst (D.fin k) (D.fin e.feastol) (a.map (fun v => (D.fin (e.x v), e.isInt v))) =
+      D.fin ((Func.numberofConst k a).value e) := by
+  unfold Gen.SolCheck.evalNumberofConst
+  have h0 : (D.ofInt 0) = D.fin 0 := by simp [D.ofInt, D.fin]
+  simp only [h0]
+  rw [fold_count_map _ _ (numberofHit e k)]
+  · simp only [Func.value]; simp [D.fin]; grind
+  · intro r v
+    unfold numberofHit
+    by_cases hi : e.isInt v = true <;> by_cases h1 : ((cround (e.x v) : Int) : Rat) = k <;>
+      by_cases h2 : rabs (e.x v - k) ≤ e.feastol <;>
+      simp [hi, h1, h2, D.eq, D.round, D.fin, D_sub_fin, D_le_fin, D.abs, D.add, D.ofInt]
+
 /-! ## `ViolSummary` -/
 
 /-- **C07_gen_summ**: `ViolSummary::CheckViol` / `CountViol` (count, maxima and the names attached to them) -/
